@@ -4,7 +4,6 @@
    takes the old one's place.  Result: RelEditTree.dressed. *)
 From V.model Require Import Base RelLex RelParse RelEdit RelEditSpec RelEditTree.
 From V.proofs Require Import BaseP RelEditP RelEditStP RelEditHistP RelEditTreeP.
-Set Default Timeout 60.
 
 (* ------------------------------------------------------------------ moving children from one tree to the end of another *)
 (* registers crs hold, in order, handles of the consecutive children  length core, length core + 1, ..
